@@ -87,6 +87,12 @@ Check C13_idle_is_swept_timer.
 Print Assumptions C13_idle_is_swept_timer.
 
 
+Example C13_idle_swept_at_exactly_t_plus_exp : ltac:(let t := type of idle_swept_at_exactly_t_plus_exp in exact t).
+Proof. exact idle_swept_at_exactly_t_plus_exp. Qed.
+Example C13_add_in_between_keeps : ltac:(let t := type of add_in_between_keeps in exact t).
+Proof. exact add_in_between_keeps. Qed.
+
+
 Example C13_constants_ok : GenParams.gen_period < GenParams.gen_exp.
 Proof. exact gen_period_lt_exp. Qed.
 
